@@ -948,3 +948,7 @@ SUBCHECKS = [
     Sub('history-random', check_history, strategy=lambda tier: _history(), classify=classify_history,
         nontrivial=nontrivial_history, n=(500, 60000), shards=(16, 48)),
 ]
+
+# the same generated cases, several at a time, checked by threads that run at the same time (core.run_overlapping): per-call state
+# kept in a place two calls share shows only there
+SUBCHECKS.append(__import__('harness.core', fromlist=['overlapped']).overlapped(next(s for s in SUBCHECKS if s.name == 'random'), k=4, n=(60, 3000)))
